@@ -178,6 +178,31 @@ func genRateLimit(repo string) string {
 				h.doc, h.def, pxStrs(rlRenamed(pxShape(list), names)))
 		})
 	}
+	// the sweep of the two cleanup loops: the select case that deletes entries
+	for _, h := range []struct{ recv, def string }{{"InMemoryTokenBucketStore", "bucketSweep"}, {"InMemoryStore", "windowSweep"}} {
+		h := h
+		g.guard(h.recv+".cleanupLoop", "\ndef "+h.def+" : List String := [\"EXTRACT-PROBLEM\"]\n", func() string {
+			d := get(h.recv, "cleanupLoop")
+			var body []ast.Stmt
+			ast.Inspect(d.Body, func(n ast.Node) bool {
+				cc, ok := n.(*ast.CommClause)
+				if !ok {
+					return true
+				}
+				for _, st := range cc.Body {
+					if pxFindCall(st, "delete") != nil {
+						body = cc.Body
+					}
+				}
+				return true
+			})
+			if body == nil {
+				pxFail(d, "cleanupLoop: no select case that deletes entries")
+			}
+			return fmt.Sprintf("\n/-- the sweep of %s.cleanupLoop (receiver and locals renamed by position) -/\ndef %s : List String := %s\n",
+				h.recv, h.def, pxStrs(rlRenamed(pxShape(body), pxPositional(d, "recv"))))
+		})
+	}
 	interest := map[string]bool{"Key": true, "Now": true, "Allow": true, "GetCounts": true, "IncrAndGetCounts": true, "Incr": true, "Header": true,
 		"OnExceeded": true, "WriteErrorResponse": true, "Abort": true, "Next": true, "IsAborted": true, "retryAfterSeconds": true}
 	for _, h := range []struct{ name, def string }{{"WithTokenBucket", "tokenBucketSkeleton"}, {"WithSlidingWindow", "slidingWindowSkeleton"}} {
